@@ -27,6 +27,10 @@ def plain(node, seen=None):
         return node
     if isinstance(node, enum.Enum):
         return 'enum:%s' % node.value
+    if isinstance(node, type):
+        return 'type:%s' % node.__name__
+    if callable(node) and not hasattr(node, 'children'):
+        return 'callable:%s' % getattr(node, '__name__', type(node).__name__)
     if isinstance(node, (list, tuple)):
         return [plain(x, seen) for x in node]
     if isinstance(node, dict):
